@@ -33,6 +33,12 @@ def scenarios(tier, rng):
                         {"ops": [{"op": "list", "dir": "@A"}, restore_op(full), {"op": "solve", "k": k2},
                                  {"op": "wait"}, {"op": "list", "dir": "@A"}]},
                         gens[1]]
+            if rng.random() < 0.3:
+                # the fresh process may see a different number of devices than the one that saved
+                d1, d2 = rng.choice([(2, 1), (1, 2), (3, 2), (2, 3)])
+                gens[0]["n_devices"] = d1
+                for g in gens[1:]:
+                    g["n_devices"] = d2
             kw = {}
             if kind == "PI":
                 kw = {"reset_values_for_each_policy_eval": rng.random() < 0.5,
@@ -40,8 +46,14 @@ def scenarios(tier, rng):
             if kind in ("VI", "SAVI"):
                 kw = {"convergence_test": rng.choice(["span", "max_diff"])}
             tagkw = "".join(f"-{str(v)[:4]}" for v in kw.values())
-            out.append(base_scenario(f"{kind}-{pname}-k{k}-f{freq}m{keep}{'a' if isasync else 's'}{tagkw}", kind, pname,
-                                     pspec, full, freq, keep, isasync, gens, kw=kw))
+            sc = base_scenario(f"{kind}-{pname}-k{k}-f{freq}m{keep}{'a' if isasync else 's'}{tagkw}", kind, pname,
+                               pspec, full, freq, keep, isasync, gens, kw=kw)
+            if any(g.get("n_devices", 1) > 1 for g in gens):
+                # another device count may change the vectorisation: "up to floating-point reproducibility"
+                sc["rtol"] = 1e-12
+                sc["refkey"] += "-rtol"
+                sc["name"] += "-dev" + "".join(str(g.get("n_devices", 1)) for g in gens)
+            out.append(sc)
     return out
 
 
@@ -58,7 +70,7 @@ def report(rep, results, label):
     rep.traces += len(traces)
     for k, (sc, tr, gens) in enumerate(results):
         desc = {"scenario": sc["name"], "kind": sc["kind"], "freq": sc["freq"], "keep": sc["keep"],
-                "async": sc["isasync"], "generations": len(gens),
+                "async": sc["isasync"], "generations": len(gens), "devices": [g.get("n_devices", 1) for g in sc["gens"]],
                 "kills": [g.get("kill_at") or g.get("shim_kill") for g in sc["gens"]]}
         rep.case(desc, nontrivial=len(tr["ev"]) > 3)
         if k in rej:
